@@ -103,7 +103,7 @@ func (o *c02Oracle) after(ch *chain, ci *callInfo) *Violation {
 
 var c02Profile = &histProfile{Scripts: true, Batches: true, OwnerBias: 3, MaxBlocks: 24, Evidence: 4, Missed: 2, Restart: 10,
 	TxKinds: []string{"send", "send", "send", "stake", "stake", "unstake", "unjail", "award", "award", "burn", "dao", "dao", "param", "raw"},
-	Modes:   []string{"", "", "", "", "", "", "check", "simulate"}, WrongSigner: 12}
+	Modes:   []string{"", "", "", "", "", "", "check", "recheck", "simulate"}, WrongSigner: 12}
 
 func genC02(t *rapid.T, tier string) interface{} {
 	pr := *c02Profile
